@@ -2,6 +2,12 @@
   C09 — Message-consuming APIs are total: a result or an error, never a panic or blow-up.
 -/
 import SamlVerif.Proofs.SPStruct
+import SamlVerif.Model.Flate
+import SamlVerif.Model.IdP
+import SamlVerif.Props.C05
+import SamlVerif.Props.C11
+import SamlVerif.Props.C18
+import SamlVerif.Generated.Facts
 
 namespace SamlVerif.SP
 
@@ -38,3 +44,75 @@ theorem C09_missing_parts_rejected (cfg : Cfg) (now : Int) (ids : List String) (
     rw [hd] at hd'; cases hd'
 
 end SamlVerif.SP
+
+namespace SamlVerif.Flate
+
+/-- **Inflate bound**: whatever the inflater offers and however the caller sizes its buffers, the
+    bytes handed out never exceed the limit — for every sequence of reads of any length. -/
+theorem C09_inflate_bound (limit : Nat) (calls : List Call) (count : Nat) (h : count ≤ limit) :
+    (readAll limit count calls).1 ≤ limit := by
+  induction calls generalizing count with
+  | nil => exact h
+  | cons c rest ih =>
+    unfold readAll read
+    split
+    · rename_i c' n' hr
+      split at hr
+      · simp at hr
+      · rename_i hle
+        simp at hr
+        apply ih
+        rw [← hr.1]
+        have : min c.delivered c.bufLen ≤ c.bufLen := Nat.min_le_right _ _
+        omega
+    · exact h
+
+/-- demanding more than the limit allows is an error, not a silent truncation -/
+theorem C09_inflate_refuses (limit count : Nat) (c : Call) (h : limit < count + c.bufLen) :
+    read limit count c = .err "uncompress-limit" := by
+  unfold read
+  rw [if_pos h]
+
+/-- obligation at the regenerated facts: the limit in the source is at most 10 MB -/
+theorem C09_limit_fact : Facts.flateUncompressLimit ≤ 10 * 1024 * 1024 ∧ 0 < Facts.flateUncompressLimit := by decide
+
+end SamlVerif.Flate
+
+namespace SamlVerif.IdP
+
+/-- `getSPEncryptionCert`'s selection never panics: a key descriptor without certificate is an error -/
+theorem C09_selectEncCert_total (keys : List KeyDesc) (w : String) : selectEncCert keys ≠ .panic w := by
+  unfold selectEncCert
+  split
+  · split
+    · simp
+    · split
+      · split
+        · split <;> simp
+        · simp
+      · simp
+  · split
+    · split <;> simp
+    · simp
+
+/-- request validation is total (C05_total, restated for the list of entry points) -/
+theorem C09_validate_total (cfg : Cfg) (now : Int) (reg : String → Lookup) (req : AuthnRequestS) (w : String) :
+    validate cfg now reg req ≠ .panic w := C05_total cfg now reg req w
+
+end SamlVerif.IdP
+
+namespace SamlVerif.Logout
+
+/-- logout validation is total: valid or an error (C18_total) -/
+theorem C09_logout_total (cfg : Cfg) (now : Int) (d : Doc) :
+    validate cfg now d = .ok () ∨ ∃ e, validate cfg now d = .err e := C18_total cfg now d
+
+end SamlVerif.Logout
+
+namespace SamlVerif.Xmlenc
+
+/-- decryption of attacker-built EncryptedAssertion content is total (C11_total) -/
+theorem C09_decrypt_total (env : Env) (key : Key) (ls : List Layer) (w : String) :
+    decrypt env key ls ≠ .panic w := C11_total env key ls w
+
+end SamlVerif.Xmlenc
